@@ -15,9 +15,11 @@ HIER_BOUNDS = {'libraries': '2-4 (Verilog: hdi_primitives + work)', 'leaf_defini
                'connection_probability_per_pin': 0.75, 'names': '25% from an adversarial alphabet (case-only siblings, non-alphabetic first character, brackets, dots, slashes, spaces, escaped identifiers)',
                'edif_properties': '0-3 per instance: string / integer / boolean, names that need a rename', 'verilog_data': 'instance parameters and attributes, module parameters and attributes, wire attributes, 0-2 assigns per module',
                'edif_same_cell_name_in_two_libraries': '20% of the designs (half of them the top cell, 60% of those in an unreferenced library of its own, 30% as a case variant)',
+               'edif_source_styles': 'comments with 0-3 strings at every place the reader accepts one (each must come back as a tuple under EDIF.comments of its element), status absent / empty / several written / author / program, optional designator / property / status on cell, view, interface, port, net, ports without direction (read as UNDEFINED), design anywhere after its library with libraries / comments after it, comment inside keywordMap',
                'verilog_permuted_or_repeated_inner_bits': '25% of the designs that instantiate a port of >= 4 bits: that port fed from one cable, end bits in slice position'}
 FLAT_BOUNDS = {'top_ports': '1-4 of width 1-3', 'black_box_models': '1-3 with 1-4 ports of width 1-3, 70% declared', 'nets': '3-8 scalar + 0-2 buses of width 2-4 + port nets',
-               'instances': '2-7 (.subckt 5 : .gate 1 : .names 3 : .latch 2), 70% with .cname, 0-2 .attr, 0-2 .param', 'conn_statements': '0-2', 'wide_names': '12% of the designs get one extra .names with 11-13 inputs', 'names': '30% from an adversarial alphabet ($ . : ~ ^ \\\\)'}
+               'instances': '2-7 (.subckt 5 : .gate 1 : .names 3 : .latch 2), 70% with .cname, 0-2 .attr, 0-2 .param', 'conn_statements': '0-2', 'wide_names': '12% of the designs get one extra .names with 11-13 inputs', 'names': '30% from an adversarial alphabet ($ . : ~ ^ \\\\)',
+               'reserved_words_inside_net_names': '35% of the designs: 1-3 used nets renamed to names containing unconn / $true / $false / $undef / statement keywords / look-alike bit suffixes as prefix, suffix, infix or case variant'}
 
 
 def bundled(kind, max_zip_bytes):
